@@ -1,5 +1,5 @@
 (* Conversions between OCaml native values and the extracted Coq inductives; request parsing. *)
-open Model
+open MODEL
 
 let rec nat_of_int n = if n <= 0 then O else S (nat_of_int (n - 1))
 let rec int_of_nat = function O -> 0 | S n -> 1 + int_of_nat n
